@@ -87,7 +87,9 @@ def execute(case):
     for i, cut in enumerate(case["cuts"]):
         clear(st)
         plant(st, loc, name, doc[:cut])
-        if case.get("pair"):
+        if case.get("pair") == "torn":
+            plant(st, other, name, doc[: max(cut // 2, 1)])  # both locations torn
+        elif case.get("pair"):
             plant(st, other, name, doc)
         # step 1: default open
         try:
@@ -108,7 +110,7 @@ def execute(case):
             d = treesnap.diff(ref, treesnap.snapshot(t))
             if d:
                 bad("tree-differs-after-repair", cut, treesnap.short(d, 2))
-            if not case.get("pair") and cut < len(doc):
+            if case.get("pair") in (None, False, "torn") and cut < len(doc):
                 p = st["cdir"] / f"{name}.index"
                 try:
                     json.loads(p.read_text())
@@ -185,7 +187,7 @@ def run(res, tier, seed):
         "for each image of a level 1.1 and a level 1.5 product (documents of ~10 kB / ~7 kB) and each location {user cache, adjacent}:"
         " every byte prefix 0..len through sar_image.open_image; through open_alos2 every prefix (thorough) or every 3rd structural"
         " JSON token +-1, every 32nd byte and the first/last 24 (quick; second image sparser), with the repair + cached-open steps on every 8th (quick) / 4th"
-        " (thorough); pairs torn+complete at token positions. A batch is non-trivial if it contains a proper prefix."
+        " (thorough); pairs torn+complete and torn+torn (both locations) at token positions. A batch is non-trivial if it contains a proper prefix."
     )
     res.assumptions = ["post-crash states of one in-place write_text = byte prefixes of the document (single file, append after truncate)", "a writer still running exposes the same prefixes to a reader", "real SIGKILLs are sampling and are not used"]
     # document lengths: ask one worker
@@ -211,6 +213,8 @@ def run(res, tier, seed):
                 pair_sel = sorted(set(tokens[:: 7 if tier == "thorough" else 40]) | {0, 1, n - 1, n})
                 for c in chunks(pair_sel, 60):
                     cases_full.append({"fn": "execute", "level": level, "image": image, "loc": loc, "cuts": c, "pair": True, "steps_every": every})
+                    if loc == "local":
+                        cases_full.append({"fn": "execute", "level": level, "image": image, "loc": loc, "cuts": c, "pair": "torn", "steps_every": every})
     n_states = 0
     order = 0
     for fn, cases in (("execute_seam", cases_seam), ("execute", cases_full)):
